@@ -590,7 +590,7 @@ PLAN = {
     # C04 also replays the re-parse histories: "the error is raised exactly when ..." must hold for every call, not only the first
     "C04": (["MC_Opt_C04_quick", "MC_Opt_C14_quick", "MC_Opt_C11b", "MC_Opt_Live"], ["MC_Opt_C04_thorough", "MC_Opt_C03", "MC_Opt_C14_quick", "MC_Opt_C11b", "MC_Opt_Live"],
             dict(env=0.3, long=0.03, batch=400), 3000, 30000, (1, 3)),
-    "C11": (["MC_Opt_C11a_quick", "MC_Opt_C11b", "MC_Opt_C14_quick"], ["MC_Opt_C11a_thorough", "MC_Opt_C11b", "MC_Opt_C14_quick"], dict(env=0.6, toggles=True), 3000, 40000, (1, 3)),
+    "C11": (["MC_Opt_C11a_quick", "MC_Opt_C11b", "MC_Opt_C11c", "MC_Opt_C14_quick"], ["MC_Opt_C11a_thorough", "MC_Opt_C11b", "MC_Opt_C11c", "MC_Opt_C14_quick"], dict(env=0.6, toggles=True), 3000, 40000, (1, 3)),
     "C12": (["MC_Opt_C12_quick", "MC_Opt_C14_quick"], ["MC_Opt_C12_thorough", "MC_Opt_C14_quick"], dict(env=0.0, positional=True), 3000, 40000, (1, 3)),
     "C14": (["MC_Opt_C14_quick", "MC_Opt_C14env_quick", "MC_Opt_C14decl_quick"], ["MC_Opt_C14_thorough", "MC_Opt_C14env_thorough", "MC_Opt_C14decl_thorough"], dict(env=0.3), 1500, 15000, (2, 6)),
 }
